@@ -126,13 +126,13 @@ fn tier_override(name: &str) -> Option<(Option<usize>, Option<usize>)> {
         ("mpmc_bounded/backpressure_prefilled_trydrain_cap1@swap", Some(1), Some(2)),
         ("mpmc_bounded/backpressure_prefilled_cap1@swap", Some(1), Some(2)),
         ("mpmc_bounded/async_backpressure_prefilled_cap1@swap", Some(1), Some(2)),
-        ("mpmc_bounded/send2_vs_drain_batch2_cap1", Some(1), Some(2)),
-        ("mpmc_bounded/mix_synctx_asyncrx_send2_drain_cap1", Some(1), Some(2)),
-        ("mpmc_bounded/mix_asynctx_syncrx_send2_drain_cap1", Some(1), Some(2)),
+        ("mpmc_bounded/send2_vs_drain_batch2_cap1", None, Some(1)),
+        ("mpmc_bounded/mix_synctx_asyncrx_send2_drain_cap1", None, Some(1)),
+        ("mpmc_bounded/mix_asynctx_syncrx_send2_drain_cap1", None, Some(1)),
         ("mpsc_bounded/try_send_batch2_race_idle_rx_cap2", Some(2), Some(3)),
         ("mpmc_bounded/try_send_batch2_race_idle_rx_cap2", Some(2), Some(3)),
         ("mpmc_bounded/2p_send_batch2_each_cap2", None, Some(0)),
-        ("mpmc_bounded/2p1c_send1_each_drain_batch2_cap1", Some(0), Some(1)),
+        ("mpmc_bounded/2p1c_send1_each_drain_batch2_cap1", None, Some(0)),
         ("mpmc_bounded/2p1c_send1_each_drain_batch2_cap2", Some(0), Some(1)),
         ("mpmc_unbounded/2p1c_send1_each_drain_batch2", Some(0), Some(1)),
         ("mpmc_bounded/rxdrop_vs_2_blocked_senders_cap1", Some(2), Some(3)),
